@@ -1,6 +1,7 @@
 import UcantoModel.Model.Basic
 import UcantoModel.Model.Enum
 import UcantoModel.Model.Patterns
+import UcantoModel.Model.WorldJson
 /-!
 # Line-protocol driver
 stdin: one case per line, TAB separated: `op  arg1  arg2 …`
@@ -24,13 +25,84 @@ def c16Row (n : Nat) (p : Bytes) : String :=
 
 def bad (msg : String) : String := s!"bad-op:{msg}\t-"
 
+structure CheckerCall where
+  links : List Int
+  accept : Bool
+
+def parseChecker (j : Lean.Json) : Except String (List CheckerCall) := do
+  (← j.getArr?).toList.mapM fun c => do
+    let ls ← (← WorldJson.getArr c "links").toList.mapM (·.getInt?)
+    pure ⟨ls, ← WorldJson.getBool c "accept"⟩
+
+def implClass (impl : String) : String :=
+  if impl == "ok" then "ok" else if impl.startsWith "fail" then "fail" else impl
+
+def implFlags (impl : String) : String :=
+  match impl.splitOn "+" with
+  | [_, f] => f
+  | _ => ""
+
+/-- `access`: mode (property id), world, implementation's spine, checker log, derives log,
+implementation's outcome.  The model column echoes the implementation's outcome whenever the two
+agree on the *hard observables of that property*; otherwise it is the model's own outcome. -/
+def doAccess (mode world spine checker impl : String) : String :=
+  match Lean.Json.parse world >>= WorldJson.parseWorld, Lean.Json.parse spine >>= WorldJson.parseSpine,
+        Lean.Json.parse checker >>= parseChecker with
+  | .ok p, .ok sp, .ok ck =>
+    let fuel := 64 + 4 * p.ntokens
+    let r := V.access p.W fuel p.d p.inv
+    let (model, mspine, mrev) := match r with
+      | .ok a => ("ok", ",".intercalate (WorldJson.spineStr a), false)
+      | .fail e => ("fail", "", e.revoked)
+      | .oof => ("oof", "", false)
+    let ic := implClass impl
+    let fl := implFlags impl
+    let badName := (fl.splitOn "name=").length > 1
+    let irev := fl.contains 'r' && !badName
+    let agree :=
+      if badName then false
+      else match mode with
+      | "C01" | "C02" => if ic == "fail" then true else ic == model
+      | "C06" => if ic == "ok" then true else ic == model
+      | "C05" => ic == model && (ic != "fail" || irev == mrev)
+      | _ => ic == model
+    let chainOracle :=
+      if ic == "ok" then
+        if V.checkAuth p.W fuel p.d p.inv sp then "ok"
+        else "fail:the authorization returned by the implementation is not a complete valid chain for this world"
+      else if ic == "fail" then
+        if model == "ok" && (mode == "C06" || mode == "C04" || mode == "ALL") then
+          s!"fail:a complete valid chain exists and nothing on it is revoked ({mspine}) but the implementation refused"
+        else if badName then "fail:refusal is not an Unauthorized error"
+        else "ok"
+      else s!"fail:implementation outcome {impl}"
+    let revOracle :=
+      if mode != "C05" then "ok"
+      else if ic == "ok" then
+        let spLinks : List Int := sp.map fun s => (s.tok : Int)
+        match ck.getLast? with
+        | none => "fail:authorization returned without consulting the revocation checker"
+        | some last =>
+          if !last.accept then "fail:authorization returned although the checker rejected the last authorization it saw"
+          else if last.links != spLinks then "fail:the authorization the checker accepted does not expose the delegations of the returned chain"
+          else "ok"
+      else if ic == "fail" && model == "fail" && mrev && !irev then
+        "fail:every candidate authorization was rejected by the revocation checker but the Unauthorized error reports no revocation"
+      else "ok"
+    let oracle := if chainOracle != "ok" then chainOracle else revOracle
+    s!"{if agree then impl else model}\t{oracle}\t{mspine}"
+  | .error e, _, _ => bad s!"world:{e}"
+  | _, .error e, _ => bad s!"spine:{e}"
+  | _, _, .error e => bad s!"checker:{e}"
+
 def handle (line : String) : String :=
   match line.splitOn "\t" with
-  | ["c16x", n, p] =>
+  | ["access", mode, world, spine, checker, _, impl] => doAccess mode world spine checker impl
+  | ["c16x", n, p, _] =>
     match n.toNat?, Bytes.ofHex p with
     | some n, some p => s!"{c16Row n p}\t-"
     | _, _ => bad "c16x args"
-  | ["c16r", p, c] =>
+  | ["c16r", p, c, _] =>
     match Bytes.ofHex p, Bytes.ofHex c with
     | some p, some c => s!"{Bytes.hexDigit (c16Pair p c)}\t-"
     | _, _ => bad "c16r args"
